@@ -34,7 +34,7 @@ SHARDS = {"quick": 16, "thorough": 16}
 TIMEOUT = {"quick": 900, "thorough": 7200}
 MIN_CASES = {"quick": 1200, "thorough": 15000}
 REQUIRED_COUNTERS = ["honest_accepted", "accessory_accepted_m3", "accessory_accepted_m5", "adversarial_rejected", "m4_proof_flips", "m6_cipher_flips", "directed_leading_zero_K", "directed_leading_zero_S", "directed_leading_zero_A", "directed_leading_zero_M2",
-                     "ble_setups_completed", "ble_setups_restarted", "ip_setups_completed", "coap_setups_completed", "transport_setups_wrong_code_refused"]
+                     "srp_public_values_observed", "ble_setups_completed", "ble_setups_restarted", "ip_setups_completed", "coap_setups_completed", "transport_setups_wrong_code_refused"]
 
 
 def make_acc(rng, code=None, pairing_id=None):
@@ -107,6 +107,22 @@ def check_honest(ctx, rng, idx, directed=None) -> None:
     _check_honest(ctx, rng, idx, code, acc, None)
 
 
+SEEN_SRP_A: dict = {}
+
+
+def fresh_srp_key(ctx, acc, replay) -> None:
+    """Monitor: the controller's SRP public value A (M3) is new in every exchange of the process - otherwise the session key
+    repeats and a recorded M2/M4/M6 can be played back by someone who never knew the setup code."""
+    A = getattr(acc.srv, "A", None)
+    if not A:
+        return
+    ctx.count("srp_public_values_observed")
+    if A in SEEN_SRP_A:
+        ctx.violation("controller-srp-key-reused", f"the controller's SRP public value of this exchange was already used by exchange #{SEEN_SRP_A[A]}", replay)
+    else:
+        SEEN_SRP_A[A] = len(SEEN_SRP_A)
+
+
 def _check_honest(ctx, rng, idx, code, acc, directed) -> None:
     ios_id = random_ios_id(rng)
     mode = rng.choice(["ip", "ble"])
@@ -116,6 +132,8 @@ def _check_honest(ctx, rng, idx, code, acc, directed) -> None:
         ctx.count(f"directed_leading_zero_{directed}")
     ctx.case("honest", idx, directed, sample={"kind": "honest", "code": code, "ios_id": ios_id, "mode": mode, "with_auth": with_auth, "acc_id": acc.pairing_id}, kind="honest")
     out = drv.run_pair_setup(acc, code, ios_id, mode, with_auth)
+    if directed is None:
+        fresh_srp_key(ctx, acc, replay)
     if out.exc is not None:
         ctx.violation(f"honest-exchange-fails-{type(out.exc).__name__}", f"{out.summary()}: {out.exc!r} (m3_ok={acc.m3_ok} m5={acc.m5_verdict})", replay)
         return
